@@ -35,7 +35,7 @@ with open(os.path.join(ROOT, "seeded", "RESULTS.md"), "w") as f:
     f.write("# Seeded changes and which checks catch them\n\n| seed | property | summary | needs | result |\n|---|---|---|---|---|\n")
     for n, meta, res in rows:
         out = "; ".join("%s: %s" % (c, "CAUGHT (concrete input)" if v["exit"] == 1 and "no-failing-input-found" not in v["line"]
-                                     else "caught, no failing input found" if v["exit"] == 1 else "missed" if v["exit"] == 0 else str(v["line"])[:40])
+                                     else "caught, no failing input found" if v["exit"] == 1 else ("exit 0 (neutralised by upstream fix)" if meta.get("neutralised") and c == meta["property"] else "missed") if v["exit"] == 0 else str(v["line"])[:40])
                         for c, v in res.items())
         f.write("| %s | %s | %s | %s | %s |\n" % (n, meta["property"], str(meta.get("summary", ""))[:160].replace("|", "/").replace("\n", " "),
                                                  str(meta.get("needs", ""))[:160].replace("|", "/").replace("\n", " "), out))
